@@ -47,7 +47,8 @@ CUSTOM_SCHEMES = ["apr_md5_crypt", "md5_crypt", "sha256_crypt", "des_crypt", "ld
                   "bcrypt", "hex_md5"]
 # default_scheme= aliases of HtpasswdFile, as documented (a bcrypt backend is available on this image)
 DS_ALIASES = {"portable_apache_22": "apr_md5_crypt", "linux_apache_22": "sha256_crypt", "portable": "bcrypt", "portable_apache_24": "bcrypt",
-              "linux_apache_24": "bcrypt", "host": "bcrypt", "host_apache_24": "bcrypt"}
+              "linux_apache_24": "bcrypt", "host": "bcrypt", "host_apache_24": "bcrypt",
+              "host_apache_22": "bcrypt"}  # (this image's crypt(3) serves bcrypt: the host's strongest)
 BAD_NAMES = ["a:b", "a\nb", "a\rb", "a\tb", "a\x00b", "x" * 256, ":", "\n", "é" * 128]  # (the last one: 128 characters, 256 UTF-8 bytes)
 
 
